@@ -7,6 +7,7 @@ import (
 	"go/constant"
 	"go/token"
 	"go/types"
+	"regexp"
 	"sort"
 	"strings"
 
@@ -1715,6 +1716,24 @@ func ruleValidLenAfterBody(c *Ctx, rule string) {
 			return true
 		}
 		incs++
+		// the amount: the record's prefix AND its body
+		if as.Tok == token.ADD_ASSIGN && len(reads) >= 2 && len(reads[0].Args) == 2 && len(reads[1].Args) == 2 {
+			amt := exprKey(as.Rhs[0])
+			pre, body := exprKey(reads[0].Args[1]), exprKey(reads[1].Args[1])
+			bodyLen := ""
+			if id, ok := ast.Unparen(reads[1].Args[1]).(*ast.Ident); ok {
+				if rhs, _, ok := f.definedBy(f.Decl.Body, f.ObjOf(id)); ok {
+					if mk, ok := ast.Unparen(rhs).(*ast.CallExpr); ok && len(mk.Args) >= 2 {
+						bodyLen = exprKey(mk.Args[1])
+					}
+				}
+			}
+			hasPre := strings.Contains(amt, "len("+pre+")") || regexp.MustCompile(`(^|[^0-9A-Za-z_])4([^0-9A-Za-z_]|$)`).MatchString(amt)
+			hasBody := strings.Contains(amt, "len("+body+")") || (bodyLen != "" && strings.Contains(amt, bodyLen))
+			if !hasPre || !hasBody {
+				bad, badPos = "the valid length is advanced by `"+amt+"`, which is not the length prefix plus the body of the record", as.Pos()
+			}
+		}
 		al, ok := g.Locate(as)
 		if !ok {
 			return true
@@ -1733,7 +1752,7 @@ func ruleValidLenAfterBody(c *Ctx, rule string) {
 	case incs == 0:
 		c.Undecided(rule, key, "the variable handed to Truncate is never advanced inside the record loop")
 	case bad != "":
-		c.Fail(rule, key, badPos, "%s: a record whose body is torn counts as complete, and the truncation to that length pads the log with zeros", bad)
+		c.Fail(rule, key, badPos, "%s: the log is cut at a point that is not a record boundary (a torn body counted as complete pads the log with zeros; a prefix left out cuts into the last acknowledged records)", bad)
 	default:
 		c.OK(rule, key, f.Decl.Pos(), incs+len(reads), "the valid length is advanced only after the length and the body of the record were read in full")
 	}
